@@ -243,6 +243,19 @@ def run_case(case):
                 labels.add("foreign-join")
             env = models[target].environment
             pos = in_range_pos(env, op.get("pos", (0, 0, 0)))
+            if op.get("oob") and isinstance(env, SpaceWorld):
+                axes = [ax for ax, e in enumerate((env.width, env.height, env.depth)) if e > 0]
+                bad = list(pos)
+                ax = axes[int(op["oob"]) % len(axes)]
+                bad[ax] = -1 if int(op["oob"]) % 2 else (env.width, env.height, env.depth)[ax] + 1
+                try:
+                    env.add_agent(a, *bad)
+                except Exception:
+                    labels.add("rejected-off-map-join")
+                    if verify_on:
+                        verify(where + " (join at an off-map position was rejected)")
+                    continue
+                raise Violation("off-map-join-accepted", f"{where}: add_agent at {bad} was accepted")
             try:
                 env.add_agent(a, *pos)
             except Exception as e:
@@ -290,7 +303,8 @@ def strategy(tier):
     pos = st.tuples(st.integers(0, 9), st.integers(0, 9), st.integers(0, 9)).map(list)
     foreign = st.sampled_from([0, 0, 0, 0, 0, 1, 2])
     attach = st.fixed_dictionaries({"op": st.just("attach"), "m": m, "a": a, "t": t, "paired": paired})
-    join_abs = st.fixed_dictionaries({"op": st.just("join"), "m": m, "a": a, "pos": pos, "foreign": foreign})
+    join_abs = st.fixed_dictionaries({"op": st.just("join"), "m": m, "a": a, "pos": pos, "foreign": foreign,
+                                      "oob": st.sampled_from([0, 0, 0, 0, 1, 2, 3, 4])})
     join_rel = st.fixed_dictionaries({"op": st.just("join"), "k": k, "pos": pos, "foreign": foreign})
     ops = wone_of(
         attach, attach, attach, join_abs, join_abs, join_rel,
